@@ -1,63 +1,62 @@
-import RLV.Model.Unesc
+import RLV.Model.Esc
 import RLV.Model.Utf8
 import RLV.Model.Core
+/-! The line scanner of the inputrc parser (inputrc/parse.go): `findNonSpace`, `findEnd`,
+`findStringEnd`, `grab`, `readSymbols`, `decodeKey`, `readNext`, in the panic monad `G`
+(a Go index or slice out of range is the value `.error (.oob _)`).
+Loops are structural recursions on a fuel argument; every caller passes fuel `e + 1`, which the
+totality theorems show is never exhausted. -/
 namespace RLV.Inputrc
 open RLV.Core (G Panic)
 
-/-- prototype Unicode predicates (the real model uses generated tables) -/
-def isSpaceU (c : Nat) : Bool :=
-  (9 ≤ c && c ≤ 13) || c == 32 || c == 0x85 || c == 0xA0 || c == 0x1680 ||
-  (0x2000 ≤ c && c ≤ 0x200a) || c == 0x2028 || c == 0x2029 || c == 0x202f || c == 0x205f || c == 0x3000
-def isControlU (c : Nat) : Bool := c < 0x20 || (0x7f ≤ c && c ≤ 0x9f)
-def toLowerU (c : Nat) : Nat :=
-  if 0x41 ≤ c && c ≤ 0x5a then c + 32
-  else if (0xc0 ≤ c && c ≤ 0xde) && c != 0xd7 then c + 32 else c
-def toUpperU (c : Nat) : Nat :=
-  if 0x61 ≤ c && c ≤ 0x7a then c - 32
-  else if c == 0xb5 then 0x39c
-  else if (0xe0 ≤ c && c ≤ 0xfe) && c != 0xf7 then c - 32
-  else if c == 0xff then 0x178 else c
-
 abbrev RS := Array Nat
 
+def isSpaceU (c : Nat) : Bool := Uni.isSpace c
+def isControlU (c : Nat) : Bool := Uni.isControl c
+def toLowerU (c : Nat) : Nat := Uni.toLower c
+def toUpperU (c : Nat) : Nat := Esc.toUpper c
+
+/-- `grab(r, i, end)` -/
 def grabA (r : RS) (i e : Nat) : Nat := if i < e then r.getD i 0 else 0
 
 /-- Go index `r[i]` -/
 def idx (r : RS) (i : Nat) : G Nat :=
   if h : i < r.size then pure r[i] else throw (.oob "rune index")
 
-def findNonSpace (r : RS) (i e : Nat) : G Nat := do
-  let mut i := i
-  for _ in [0:e + 1] do
-    if i < e then
+/-- `for ; i < end && unicode.IsSpace(r[i]); i++ {}` -/
+def findNonSpace (r : RS) (e : Nat) : Nat → Nat → G Nat
+  | 0, i => pure i
+  | f+1, i =>
+    if i < e then do
       let c ← idx r i
-      if isSpaceU c then i := i + 1 else break
-    else break
-  return i
+      if isSpaceU c then findNonSpace r e f (i + 1) else pure i
+    else pure i
 
 def endTok (c : Nat) : Bool := c == 0x23 || isSpaceU c || isControlU c
 
-def findEnd (r : RS) (i e : Nat) : Nat := Id.run do
-  let mut i := i
-  let mut c := grabA r (i + 1) e
-  for _ in [0:e + 1] do
-    if i < e && !endTok c then
-      c := grabA r (i + 1) e
-      i := i + 1
-    else break
-  return i
+/-- `for ; i < end; i++ { if c := r[i]; c == '#' || IsSpace(c) || IsControl(c) { break } }` -/
+def findEnd (r : RS) (e : Nat) : Nat → Nat → G Nat
+  | 0, i => pure i
+  | f+1, i =>
+    if i < e then do
+      let c ← idx r i
+      if endTok c then pure i else findEnd r e f (i + 1)
+    else pure i
+
+/-- the loop of `findStringEnd` after `quote := seq[pos]; pos++` -/
+def stringEndLoop (r : RS) (e quote : Nat) : Nat → Nat → G (Nat × Bool)
+  | 0, p => pure (p, false)
+  | f+1, p =>
+    if p < e then do
+      let c ← idx r p
+      if c == 0x5c then stringEndLoop r e quote f (p + 2)
+      else if c == quote then pure (p + 1, true)
+      else stringEndLoop r e quote f (p + 1)
+    else pure (p, false)
 
 def findStringEnd (r : RS) (pos e : Nat) : G (Nat × Bool) := do
   let quote ← idx r pos
-  let mut p := pos + 1
-  for _ in [0:e + 1] do
-    if p < e then
-      let c ← idx r p
-      if c == 0x5c then p := p + 2
-      else if c == quote then return (p + 1, true)
-      else p := p + 1
-    else break
-  return (p, false)
+  stringEndLoop r e quote (e + 1) (pos + 1)
 
 inductive Tok | none | bind | bindMacro | set | construct
 deriving Repr, DecidableEq
@@ -71,113 +70,136 @@ def PErr.name : PErr → String
   | .bindQuote => "bindQuote" | .missingColon => "missingColon" | .macroQuote => "macroQuote"
   | .unknownModifier => "unknownModifier"
 
+/-- Go `seq[a:b]` on a slice whose capacity is its length -/
 def sliceS (r : RS) (a b : Nat) : G (List Nat) :=
   if a ≤ b ∧ b ≤ r.size then pure ((r.toList.drop a).take (b - a)) else throw (.oob "slice")
 
+/-- `unescapeRunes(r, i, end)`: `if len(r) == 1 { return string(r) }`, else the loop over `[i, end)`;
+`grab` is bounded by `end`, so the look-ahead never sees runes at or after `end`: running on the
+slice is exact. With `end < i` the loop does not run. -/
 def unescRange (r : RS) (i e : Nat) : G (List Nat) := do
-  -- unescapeRunes(r, i, end): `if len(r) == 1 return string(r)`; else loop over [i,end) with grab bounded by end
   if r.size = 1 then return r.toList
-  if e < i then return []   -- loop does not run
+  if e < i then return []
   let body ← sliceS r i e
-  -- grab is bounded by `end`, so look-ahead never sees runes ≥ end: working on the slice is exact
-  return unescF toUpperU body.length body
+  return Esc.unescF body.length body
 
+/-- `readSymbols` -/
 def readSymbols (r : RS) (pos e : Nat) (tok : Tok) (allowStrings : Bool) : G (List Nat × List Nat × Tok) := do
-  let start ← findNonSpace r pos e
-  let p := findEnd r start e
+  let start ← findNonSpace r e (e + 1) pos
+  let p ← findEnd r e (e + 1) start
   let val ← sliceS r start p
-  let start ← findNonSpace r p e
+  let start ← findNonSpace r e (e + 1) p
   let c := grabA r start e
-  let mut ok := false
-  let mut p2 := p
-  if allowStrings || c == 0x22 || c == 0x27 then
-    let (ep, o) ← findStringEnd r start e
-    ok := o
-    if o then p2 := ep
-  if !allowStrings || !ok then p2 := findEnd r start e
-  let v ← sliceS r start p2
+  let (ok, p2) ← (if start < e ∧ (allowStrings ∨ c = 0x22 ∨ c = 0x27) then do
+      let (ep, o) ← findStringEnd r start e
+      pure (o, if o then ep else p)
+    else pure (false, p) : G (Bool × Nat))
+  let p3 ← (if !allowStrings || !ok then findEnd r e (e + 1) start else pure p2 : G Nat)
+  let v ← sliceS r start p3
   return (val, v, tok)
 
 def lowerS (l : List Nat) : List Nat := l.map toLowerU
 
-def decodeKey (r : RS) (pos e : Nat) : G (Except PErr (List Nat × Nat)) := do
-  let start := pos
-  let mut p := pos
-  let mut c := grabA r (p + 1) e
-  for _ in [0:e + 1] do
-    if p < e && c != 0x3a && !endTok c then
-      c := grabA r (p + 1) e
-      p := p + 1
-    else break
-  let raw ← sliceS r start p
-  -- strings.ToLower then byte-wise modifier stripping; modifiers are ASCII so rune-wise is exact
-  let mut v := lowerS raw
-  let mut isMeta_ := false
-  let mut control := false
-  for _ in [0:raw.length + 1] do
-    match v.idxOf? 0x2d with
-    | none => break
-    | some i =>
-      let m := v.take i
-      if m == "control".toList.map Char.toNat || m == "ctrl".toList.map Char.toNat || m == "c".toList.map Char.toNat then control := true
-      else if m == "meta".toList.map Char.toNat || m == "m".toList.map Char.toNat then isMeta_ := true
-      else return .error .unknownModifier
-      v := v.drop (i + 1)
-  let s := String.mk (v.map Char.ofNat)
-  if v.isEmpty then return .ok ([], p)
-  let ch : Nat :=
-    if s == "delete" || s == "del" || s == "rubout" then 0x7f
-    else if s == "escape" || s == "esc" then 0x1b
-    else if s == "newline" || s == "linefeed" || s == "lfd" then 10
-    else if s == "return" || s == "ret" then 13
-    else if s == "tab" then 9
-    else if s == "space" || s == "spc" then 32
-    else if s == "formfeed" || s == "ffd" then 12
-    else if s == "vertical" || s == "vrt" then 11
-    else v.headD 0
-  if control && isMeta_ then return .ok ([0x1b, (toUpperU ch) &&& 0x1f], p)
-  let ch := if control then (toUpperU ch) &&& 0x1f else if isMeta_ then ch ||| 0x80 else ch
-  return .ok ([ch], p)
+def str (s : String) : List Nat := s.toList.map Char.toNat
 
-/-- readNext: (keyseq/name, value, token) or a parse error; G for Go panics -/
+/-- the modifier-stripping loop of `decodeKey` (`strings.Index(val, "-")`; modifiers are ASCII, so
+working on runes instead of bytes is exact) -/
+def stripMods : Nat → List Nat → Bool → Bool → Except PErr (List Nat × Bool × Bool)
+  | 0, v, c, m => .ok (v, c, m)
+  | f+1, v, c, m =>
+    match v.idxOf? 0x2d with
+    | none => .ok (v, c, m)
+    | some i =>
+      let md := v.take i
+      if md = str "control" ∨ md = str "ctrl" ∨ md = str "c" then stripMods f (v.drop (i + 1)) true m
+      else if md = str "meta" ∨ md = str "m" then stripMods f (v.drop (i + 1)) c true
+      else .error .unknownModifier
+
+def keyChar (v : List Nat) : Nat :=
+  if v = str "delete" ∨ v = str "del" ∨ v = str "rubout" then 0x7f
+  else if v = str "escape" ∨ v = str "esc" then 0x1b
+  else if v = str "newline" ∨ v = str "linefeed" ∨ v = str "lfd" then 10
+  else if v = str "return" ∨ v = str "ret" then 13
+  else if v = str "tab" then 9
+  else if v = str "space" ∨ v = str "spc" then 32
+  else if v = str "formfeed" ∨ v = str "ffd" then 12
+  else if v = str "vertical" ∨ v = str "vrt" then 11
+  else v.headD 0
+
+def endKey (c : Nat) : Bool := c == 0x3a || endTok c
+
+/-- the name-scanning loop of `decodeKey` -/
+def keyEnd (r : RS) (e : Nat) : Nat → Nat → G Nat
+  | 0, i => pure i
+  | f+1, i =>
+    if i < e then do
+      let c ← idx r i
+      if endKey c then pure i else keyEnd r e f (i + 1)
+    else pure i
+
+def decodeKey (r : RS) (pos e : Nat) : G (Except PErr (List Nat × Nat)) := do
+  let p ← keyEnd r e (e + 1) pos
+  let raw ← sliceS r pos p
+  match stripMods (raw.length + 1) (lowerS raw) false false with
+  | .error er => return .error er
+  | .ok (v, control, isMeta) =>
+    if v.isEmpty then return .ok ([], p)
+    let ch := keyChar v
+    if control && isMeta then return .ok ([0x1b, (toUpperU ch) &&& 0x1f], p)
+    let ch := if control then (toUpperU ch) &&& 0x1f else if isMeta then ch ||| 0x80 else ch
+    return .ok ([ch], p)
+
+/-- `for ; pos < end && seq[pos] != ':'; pos++ {}` -/
+def seekColon (r : RS) (e : Nat) : Nat → Nat → G Nat
+  | 0, i => pure i
+  | f+1, i =>
+    if i < e then do
+      let c ← idx r i
+      if c != 0x3a then seekColon r e f (i + 1) else pure i
+    else pure i
+
+/-- the part of `readNext` after the key sequence has been read -/
+def readAction (r : RS) (e : Nat) (keySeq : List Nat) (p : Nat) : G (Except PErr (List Nat × List Nat × Tok)) := do
+  let p ← seekColon r e (e + 1) p
+  if p == e then return .error .missingColon
+  let c ← idx r p
+  if c != 0x3a then return .error .missingColon
+  let p ← findNonSpace r e (e + 1) (p + 1)
+  if p == e then return .ok (keySeq, [], .none)
+  let c ← idx r p
+  if c == 0x23 then return .ok (keySeq, [], .none)
+  if c == 0x22 || c == 0x27 then
+    let (ep, ok) ← findStringEnd r p e
+    if !ok then return .error .macroQuote
+    return .ok (keySeq, ← unescRange r (p + 1) (ep - 1), .bindMacro)
+  let q ← findEnd r e (e + 1) p
+  let v ← sliceS r p q
+  return .ok (keySeq, v, .bind)
+
+/-- `readNext`: (key sequence or name, value, token) or a parse error; `G` for Go panics -/
 def readNext (r : RS) (pos e : Nat) : G (Except PErr (List Nat × List Nat × Tok)) := do
-  let pos ← findNonSpace r pos e
+  let pos ← findNonSpace r e (e + 1) pos
   let c0 ← idx r pos
   if c0 == 0x73 && grabA r (pos+1) e == 0x65 && grabA r (pos+2) e == 0x74 && isSpaceU (grabA r (pos+3) e) then
     return .ok (← readSymbols r (pos + 4) e .set true)
   if c0 == 0x24 then
     return .ok (← readSymbols r pos e .construct false)
-  let mut p := pos
-  let mut keySeq : List Nat := []
   if c0 == 0x22 || c0 == 0x27 then
-    let start := pos
     let (ep, ok) ← findStringEnd r pos e
     if !ok then return .error .bindQuote
-    p := ep
-    keySeq ← unescRange r (start + 1) (p - 1)
+    let keySeq ← unescRange r (pos + 1) (ep - 1)
+    readAction r e keySeq ep
   else
     match ← decodeKey r pos e with
     | .error er => return .error er
-    | .ok (k, np) => keySeq := k; p := np
-  -- seek ':'
-  for _ in [0:e + 1] do
-    if p < e then
-      let c ← idx r p
-      if c != 0x3a then p := p + 1 else break
-    else break
-  if p == e then return .error .missingColon
+    | .ok (k, np) => readAction r e k np
+
+/-- what `Parser.Parse` does with one line before calling `next`: skip blank and comment lines -/
+def scanLine (r : RS) : G (Option (Except PErr (List Nat × List Nat × Tok))) := do
+  let p ← findNonSpace r r.size (r.size + 1) 0
+  if p == r.size then return none
   let c ← idx r p
-  if c != 0x3a then return .error .missingColon
-  p ← findNonSpace r (p + 1) e
-  if p == e then return .ok (keySeq, [], .none)
-  let c ← idx r p
-  if c == 0x23 then return .ok (keySeq, [], .none)
-  if c == 0x22 || c == 0x27 then
-    let start := p
-    let (ep, ok) ← findStringEnd r p e
-    if !ok then return .error .macroQuote
-    return .ok (keySeq, ← unescRange r (start + 1) (ep - 1), .bindMacro)
-  let v ← sliceS r p (findEnd r p e)
-  return .ok (keySeq, v, .bind)
+  if c == 0 || c == 13 || c == 10 || c == 0x23 then return none
+  return some (← readNext r p r.size)
 
 end RLV.Inputrc
